@@ -10,6 +10,10 @@ for rnd in (1, 2):
         pid = f"C{n:02d}"
         tag = f"{pid}r{rnd}"
         src = SRC[rnd].format(id=pid)
+        if pid == "C14" and rnd == 2:
+            continue
+        if pid == "C14" and rnd == 1:
+            src = "/tmp/mut2/wt_C14/seed"      # the C14 check was built later: its first seed came with round 2
         dst = os.path.join(ROOT, "seeded", tag)
         log = os.path.join(ROOT, "work", "seedtry", tag, "log")
         if os.path.exists(os.path.join(src, "patch.diff")):
